@@ -12,7 +12,7 @@ from .. import build, sp
 ID = "C06"
 META = {
     "technique": "runtime monitoring: layout-contract postcondition on writer.write / write_string(unparse_stack=[]) re-derived from the statement, over a library universe x format grid",
-    "level_text": "For every generated (library, format) pair the real writer's output is checked against the statement: blocks joined by exactly the separator, each field line = indent+key+pad+' = '+value+comma, 'auto' equal to the explicit minimal column, failed blocks verbatim under the configured comment, non-entry chunks re-read by an independent recogniser, format attributes unchanged. Libraries built in code (two blocks sharing a key, hence a duplicate wrapper without raw text) must be written without raising. Failed blocks and duplicate wrappers also carry the falsy/blank raw texts '', ' ' and '0'. Every fifth library is edited through the public API after construction (re-keyed entries, remove, re-add, add, replace; 1-6 steps) and the contract is checked against the blocks it holds afterwards.",
+    "level_text": "For every generated (library, format) pair the real writer's output is checked against the statement: blocks joined by exactly the separator, each field line = indent+key+pad+' = '+value+comma, 'auto' equal to the explicit minimal column, failed blocks verbatim under the configured comment, non-entry chunks re-read by an independent recogniser, format attributes unchanged. Libraries built in code (two blocks sharing a key, hence a duplicate wrapper without raw text) must be written without raising. Failed blocks and duplicate wrappers also carry the falsy/blank raw texts '', ' ' and '0'. Every fifth library is edited through the public API after construction (re-keyed entries, remove, re-add, add, replace; 1-6 steps) and the contract is checked against the blocks it holds afterwards. Every ninth library has, in front of each failed block, a comment or preamble whose text is the configured warning line with the right or the next line count.",
     "level_note": "chunk boundaries are obtained by writing each block alone with the same (resolved) format; header/footer of entry chunks are compared tolerantly (the statement only fixes field lines)",
 }
 RULE = ("case = (library spec of 0-6 blocks over entries with 0-5 fields and key lengths 1..25, strings, preambles, comments, failed and duplicate "
